@@ -25,7 +25,7 @@ def parse_airplanes(lines):
        {"title_n": int|None, "rows": [{field: text}], "raw_rows": [str], "col": {field: (start, width)}}"""
     hdr_i = None
     for i, ln in enumerate(lines):
-        if 'ICAO' in ln and 'Msgs' in ln:
+        if 'ICAO' in ln and ('Msgs' in ln or 'Call' in ln):
             hdr_i = i
             break
     if hdr_i is None or hdr_i == 0:
@@ -40,29 +40,48 @@ def parse_airplanes(lines):
         return None
     starts = []
     pos = left
+    missing = []
     for h in HEADERS:
         j = hdr.find(h, pos)
         if j < 0:
-            return None
+            j = hdr.find(h[:3], pos)        # a header cut short by a narrower column
+        if j < 0:
+            # a column that does not fit the terminal is dropped by the table widget: reported, not a parse failure
+            missing.append(h)
+            starts.append(None)
+            continue
         starts.append(j - 3 if h == 'FPM' else j)
         pos = j + len(h)
     col = {}
     for k, f in enumerate(FIELDS):
-        end = starts[k + 1] - 1 if k + 1 < len(starts) else right
+        if starts[k] is None:
+            col[f] = (right, 0)
+            continue
+        nxt = [x for x in starts[k + 1:] if x is not None]
+        end = nxt[0] - 1 if nxt else right
         col[f] = (starts[k], max(0, end - starts[k]))
     rows = []
     raw_rows = []
-    for ln in lines[hdr_i + 2:]:
+    # rows follow the header after its bottom margin (blank lines); the table can hold as many rows as there are
+    # lines between that margin and the bottom border - both are read off the screen, not assumed
+    body_lines = 0
+    leading_blank = 0
+    for ln in lines[hdr_i + 1:]:
         if '└' in ln or '┘' in ln:
             break
         if len(ln) <= left or ln[left] != '│':
             break
+        body_lines += 1
         body = ln.ljust(right + 1)
         if not body[left + 1:right].strip():
+            if not rows:
+                leading_blank += 1
             continue
         raw_rows.append(body[left + 1:right].rstrip())
         rows.append({f: body[s:s + w].strip() for f, (s, w) in col.items()})
-    return {'title_n': title_n, 'rows': rows, 'raw_rows': raw_rows, 'col': col}
+    if not rows:
+        leading_blank = min(leading_blank, 1)   # an empty table: only the header margin is known to be blank
+    return {'title_n': title_n, 'rows': rows, 'raw_rows': raw_rows, 'col': col, 'capacity': max(0, body_lines - leading_blank), 'missing_cols': missing}
 
 
 def parse_stats(lines):
